@@ -210,7 +210,14 @@ register(Contract(
     requires=[f"scheme_ok({SCHEME})", "not g_stdin_ok", "is_empty(g_spool)", "is_empty(g_scanned)"],
     types={"args": "Namespace", "outfile": "TempFile"},
     calls={"self.__scan_specific_file": (FSH + "__scan_specific_file", ["g_stdin_ok = result", "g_scanned.append((next_file, next_file_name))"]),
-           "outfile.write": ("TempFile.write", ["g_spool.append(text)"])},
+           "outfile.write": ("TempFile.write", ["g_spool.append(text)"]),
+           # C16: the spool is read back as strict utf-8 by FileSourceProvider, so it must be WRITTEN as utf-8 -- not in the locale's
+           # encoding (D20: under a non-UTF-8 locale stdin / scan_string could not carry what a file can)
+           "tempfile.NamedTemporaryFile": Assumed("tempfile.NamedTemporaryFile[spool of standard input]", params=["mode", "encoding", "delete"],
+                                                  returns="TempFile", fresh_result=True, raises=[Raises("OSError")],
+                                                  requires=["encoding == 'utf-8'", "mode == 'wt'", "delete == False"],
+                                                  ensures=["result.name not in g_files", "len(result.name) > 0"], effects=["g_files.add(result.name)"],
+                                                  why="creates a new, uniquely named file (name not in use) and returns an open text handle")},
     ensures=["forall_val(lambda x: (x in g_files) == old(x in g_files))",       # C10/C15: the spool file is removed on every normal exit
              "result == g_stdin_ok", MONO,              # the outcome of the scan of the spooled input is handed back
              # C16: the string given through the API (or, without one, every line of standard input, in order) is spooled unchanged,
